@@ -225,13 +225,21 @@ def run_filter(ctx, tool, case, tag="c", threads=1, batch=None):
     open(mpath, "wb").write(render_model(case))
     head = ["timeout", "20", tool, case["mode"]] + (["context"] if case["ctx"] else []) + (["phrase"] if case["phrase"] else []) + \
         ["arpa" if case["fmt"] == "arpa" else "raw", "threads:%d" % threads] + (["batch_size:%d" % batch] if batch else [])
-    if case.get("vocab_as_file"):
-        # the other calling convention: vocabulary from a file, model on stdin
-        vpath = os.path.join(d, "vocab")
-        open(vpath, "wb").write(case["vocab"])
-        rc, out, err = vlib.sh(head + ["vocab:" + vpath, os.path.join(d, "out")], input=render_model(case), timeout=30)
+    for attempt in range(6):
+        if case.get("vocab_as_file"):
+            # the other calling convention: vocabulary from a file, model on stdin
+            vpath = os.path.join(d, "vocab")
+            open(vpath, "wb").write(case["vocab"])
+            rc, out, err = vlib.sh(head + ["vocab:" + vpath, os.path.join(d, "out")], input=render_model(case), timeout=30)
+        else:
+            rc, out, err = vlib.sh(head + ["model:" + mpath, os.path.join(d, "out")], input=case["vocab"], timeout=30)
+        if rc not in (126, 127):
+            break
+        # the binary could not be executed (another check is relinking the shared build cache): not an answer of the tool
+        import time
+        time.sleep(2 + attempt)
     else:
-        rc, out, err = vlib.sh(head + ["model:" + mpath, os.path.join(d, "out")], input=case["vocab"], timeout=30)
+        raise vlib.InfraError("bin/filter cannot be executed (status %d): %s" % (rc, err[-200:]))
     files = []
     if case["mode"] == "multiple":
         j = 0
@@ -603,12 +611,16 @@ def run_query_case(ctx, tools, qc):
     filt = os.path.join(d, "f.arpa")
     args = ["timeout", "20", tools["filter"], qc["mode"]] + (["context"] if qc["ctx"] else []) + ["arpa", "threads:1", "model:" + arpa, filt]
     rc, out, err = vlib.sh(args, input=qc["vocab"], timeout=30)
+    if rc in (126, 127):
+        return ("skip", "bin/filter could not be executed (shared build cache being relinked)")
     if rc != 0:
         return ("fail", "filter exited %d: %s" % (rc, err[-300:]))
     text = b"".join(s + b"\n" for s in qc["sentences"])
     res = []
     for m in (arpa, filt):
         rc, out, err = vlib.sh(["timeout", "30", tools["query"], "-v", "word", "-v", "sentence", m], input=text, timeout=40, binary=True)
+        if rc in (126, 127):
+            return ("skip", "bin/query could not be executed (shared build cache being relinked)")
         if rc != 0:
             if m == arpa:
                 # the unfiltered lmplz model itself is not loadable (e.g. a -inf back-off from a degenerate corpus): no
@@ -634,7 +646,7 @@ def run(ctx):
 
     # (1) intersections
     set_cases = ["I 1,2,3;2,3;0,3,5", "I -", "I -;1", "I 0", "I 1,5,9;1,5,9", "I 0,2,4,6;1,3,5,7", "I 0,1,2,3,4,5,6,7,8,9;9;0,9"]
-    set_cases += [gen_sets(rng) for _ in range(ctx.pick(3000, 40000))]
+    set_cases += [gen_sets(rng) for _ in range(ctx.pick(2000, 40000))]
     sout = vlib.run_lines(impl_sets, set_cases)
     spec_fail = []
     for c, o in zip(set_cases, sout):
@@ -645,12 +657,12 @@ def run(ctx):
     # (2) the filter tool
     cases = corpus_cases()
     ctx.count("corpus_cases", len(cases))
-    cases += [gen_case(rng) for _ in range(ctx.pick(1500, 12000))]
+    cases += [gen_case(rng) for _ in range(ctx.pick(1000, 12000))]
     cases += [gen_exhaustive_phrase_case(rng) for _ in range(ctx.pick(60, 1000))]
-    longc = [gen_long_line_case(rng) for _ in range(ctx.pick(30, 400))]
+    longc = [gen_long_line_case(rng) for _ in range(ctx.pick(20, 400))]
     cases += longc
     ctx.coverage["long_line_cases"] = len(longc)
-    medium = [gen_medium_case(rng) for _ in range(ctx.pick(16, 200))]
+    medium = [gen_medium_case(rng) for _ in range(ctx.pick(12, 200))]
     n_small = len(cases)
     cases += medium
     threaded_runs = 0
@@ -679,7 +691,7 @@ def run(ctx):
                 nontrivial.add(model_line(case))
 
     # (3) query equivalence through bin/query
-    qcases = [gen_query_case(rng, i) for i in range(ctx.pick(60, 600))]
+    qcases = [gen_query_case(rng, i) for i in range(ctx.pick(40, 600))]
     qok = qdrop = 0
     for qc in qcases:
         st, info = run_query_case(ctx, tools, qc)
@@ -694,16 +706,28 @@ def run(ctx):
     model_broken = None
     try:
         model = vlib.ocaml_model("C11")
-        # the extracted list functions are not tail recursive: files of several hundred KB need more than the default 8 MB stack
-        big_stack = ("sh", "-c", 'ulimit -s unlimited 2>/dev/null || ulimit -s 1000000; exec "$0"')
-        mout = vlib.run_lines(model, set_cases + [model_line(c) for c in cases], timeout=900, prefix=big_stack)
-        for c, a, b in zip(set_cases + cases, sout + impl_ans, mout):
+        # (vlib.run_lines starts the model with the largest stack allowed: the extracted list functions are not tail recursive)
+        all_in = set_cases + [model_line(c) for c in cases]
+        mout = vlib.run_lines(model, all_in, timeout=900)
+        cannot = []
+        for idx, (c, a, b) in enumerate(zip(set_cases + cases, sout + impl_ans, mout)):
+            if b.startswith("MODEL-EXCEPTION") or b.startswith("DRIVER-DIED") or b == "<no answer>":
+                # a model that cannot answer is no verdict about the tool: ask again for this case alone
+                b = vlib.run_lines(model, [all_in[idx]], timeout=300)[0]
+                if b.startswith("MODEL-EXCEPTION") or b.startswith("DRIVER-DIED") or b == "<no answer>":
+                    cannot.append((c, b))
+                    continue
             if a != b:
                 mismatches.append((c, a, b))
+        ctx.coverage["model_cannot_answer"] = len(cannot)
+        if cannot:
+            c, b = cannot[0]
+            ctx.report("model:cannot-answer", "the extracted model gives no answer on %d case(s) (infrastructure, not a verdict about the tool): %s" % (len(cannot), b[:120]),
+                       {"case": c if isinstance(c, str) else dump(c), "model": b[:300]}, found=False)
         # the structure-faithful model of the phrase graph search must agree with the decision procedure that the
         # byte comparison above ties to the tool
         pcases = [c for c in cases if c["phrase"] and sum(len(x) for x in c["sections"])]
-        pout = vlib.run_lines(model, [phrase_graph_line(c) for c in pcases], timeout=900, prefix=big_stack)
+        pout = vlib.run_lines(model, [phrase_graph_line(c) for c in pcases], timeout=900)
         for c, o in zip(pcases, pout):
             if o != "same":
                 mismatches.append((c, "graph-search model == derivable_b", o))
